@@ -57,6 +57,28 @@ def isNormalized (lb : Nat) (sb : List Nat) : Bool := sb.all (· ≤ lb)
 
 namespace Big
 
+/-- One call of the core decomposition chip (what the harness's `LogDecomp` wrapper logs): `a k`
+`assign_less_than_pow2(·, k)`, `c k` `assert_less_than_pow2(·, k)`, `d k s`
+`decompose_fixed_limb_size(·, k, s)`. Every range check of the BigUint gadget
+(`assign_lower_than_fixed(·, 2^k)` of the native gadget) ends in one of these. -/
+inductive BEv where
+  | a (k : Nat)
+  | c (k : Nat)
+  | d (k s : Nat)
+  deriving Repr, DecidableEq
+
+def BEv.fmt : BEv → String
+  | .a k => s!"A{k}"
+  | .c k => s!"C{k}"
+  | .d k s => s!"D{k}/{s}"
+
+/-- Synthesis monad of the BigUint model: the range-check events emitted so far, over "stops". -/
+abbrev BM := StateT (Array BEv) (Except BStop)
+
+def emitB (es : List BEv) : BM Unit := modify (fun a => a ++ es.toArray)
+
+def stopB {α : Type} (e : BStop) : BM α := fun _ => .error e
+
 /-- The bounds `[lb, …, lb, msl]` of `assign_bounded` / `assign_fixed_biguint`
 (`(nb_bits - 1).rem(LOG2_BASE) + 1` for the most significant limb; `nb_bits - 1` underflows for
 `nb_bits = 0`: a panic in the checked-arithmetic profile). -/
@@ -64,9 +86,9 @@ def boundedSb (lb nbBits : Nat) : List Nat :=
   let n := (max nbBits 1 + lb - 1) / lb
   List.replicate (n - 1) lb ++ [(nbBits - 1) % lb + 1]
 
-/-- `assign_bounded`: a panic when the value does not fit the limbs (`big_to_limbs` panics), a
-limb exceeds its bound (the range check's witness generation panics) or `nb_bits = 0`. -/
-def assignBounded (lb : Nat) (v nbBits : Nat) : Except BStop (BVar × Bool) :=
+/-- `assign_bounded`, value part: a panic when the value does not fit the limbs (`big_to_limbs`
+panics), a limb exceeds its bound (the range check's witness generation panics) or `nb_bits = 0`. -/
+def assignBoundedV (lb : Nat) (v nbBits : Nat) : Except BStop (BVar × Bool) :=
   if nbBits = 0 ∨ lb = 0 then .error .panic
   else
     let sb := boundedSb lb nbBits
@@ -74,6 +96,15 @@ def assignBounded (lb : Nat) (v nbBits : Nat) : Except BStop (BVar × Bool) :=
     -- a limb beyond its bound: the witness generation of the range check panics
     if r.2 ≠ 0 ∨ !((r.1.zip sb).all (fun t => decide (t.1 < 2 ^ t.2))) then .error .panic
     else .ok (⟨r.1, sb⟩, true)
+
+/-- `assign_bounded`: limb `i` is assigned by `assign_lower_than_fixed(·, 2^sb[i])`, i.e. one
+`assign_less_than_pow2(·, sb[i])` per limb (event `A`). -/
+def assignBounded (lb : Nat) (v nbBits : Nat) : BM (BVar × Bool) := do
+  match assignBoundedV lb v nbBits with
+  | .error e => stopB e
+  | .ok r =>
+    emitB (r.1.sb.map BEv.a)
+    pure r
 
 /-- `assign_fixed_biguint`. -/
 def assignFixed (lb : Nat) (v : Nat) : BVar :=
@@ -101,17 +132,32 @@ def normChain (lb numBits : Nat) : Nat → Nat → List Nat → List Nat → Exc
       | .error e => .error e
       | .ok (ls, c) => .ok (payload % 2 ^ lb :: ls, c)
 
+/-- The range checks of the carry chain of `normalize` (one `div_rem_native_by_base` per limb):
+per step `(k_q, k_r)` with the quotient assigned by `assign_lower_than_fixed(q, 2^k_q)`,
+`k_q = max(payload_bound, LOG2_BASE) - LOG2_BASE`, and the remainder by
+`assign_lower_than_fixed(r, 2^LOG2_BASE)`; `none` = the overflow panic of `normalize`.
+Only the size bounds enter (never the values). -/
+def normRc (lb numBits : Nat) : Nat → List Nat → Option (List (Nat × Nat))
+  | _, [] => some []
+  | cb, b :: sbs =>
+    let pb := boundOfAddition cb b
+    if pb ≥ numBits then none
+    else (normRc lb numBits (max pb lb - lb) sbs).map (fun t => (max pb lb - lb, lb) :: t)
+
 /-- `normalize`: the normalised number and whether the final carry is zero (asserted). -/
-def normalize (lb numBits : Nat) (x : BVar) : Except BStop (BVar × Bool) :=
-  if isNormalized lb x.sb then .ok (x, true)
+def normalize (lb numBits : Nat) (x : BVar) : BM (BVar × Bool) :=
+  if isNormalized lb x.sb then pure (x, true)
   else
     let nOut := (nbBits lb x.sb + lb - 1) / lb
     match resize nOut x with
-    | none => .error .panic
+    | none => stopB .panic
     | some x =>
-      match normChain lb numBits 0 0 x.limbs x.sb with
-      | .error e => .error e
-      | .ok (ls, c) => .ok (⟨ls, List.replicate nOut lb⟩, c == 0)
+      match normChain lb numBits 0 0 x.limbs x.sb, normRc lb numBits 0 x.sb with
+      | .ok (ls, c), some rc => do
+        emitB (rc.flatMap (fun t => [BEv.a t.1, BEv.a t.2]))
+        pure (⟨ls, List.replicate nOut lb⟩, c == 0)
+      | .error e, _ => stopB e
+      | _, none => stopB .panic
 
 def zipAddLimbs : List Nat → List Nat → List Nat
   | x :: xs, y :: ys => (x + y) :: zipAddLimbs xs ys
@@ -123,8 +169,9 @@ def zipAddBounds : List Nat → List Nat → List Nat
   | [], ys => ys
   | xs, [] => xs
 
-/-- `add`. -/
-def add (lb numBits : Nat) (x y : BVar) : Except BStop (BVar × Bool) :=
+/-- `add`: limb-wise native additions on the common prefix, then the remaining limbs of the
+LONGER operand (two branches in the code: `x` longer, `y` longer), then `normalize`. -/
+def add (lb numBits : Nat) (x y : BVar) : BM (BVar × Bool) :=
   normalize lb numBits ⟨zipAddLimbs x.limbs y.limbs, zipAddBounds x.sb y.sb⟩
 
 /-- Add `v` (with bound `b`) at position `k` of a limb/bound vector pair. -/
@@ -147,15 +194,47 @@ def mulBoundsLoop (xsb ysb : List Nat) : List Nat := Id.run do
       sbs := sbs.set (i + j) (boundOfAddition (sbs.getD (i + j) 0) (bx + by'))
   return sbs
 
-def mulRaw (x y : BVar) : BVar := ⟨mulLimbs x.limbs y.limbs, mulBoundsLoop x.sb y.sb⟩
+/-- The accumulation loop of `mul` on limbs AND bounds together, in the order of the code
+(`limbs[i+j] += x[i]·y[j]; bound[i+j] = bound_of_addition(bound[i+j], bx[i] + by[j])`), as a pure
+fold (the object of `mul_accum_within_bounds`). -/
+def mulAccumRow (x bx i : Nat) (ys : List (Nat × Nat)) (j : Nat) (acc : List Nat × List Nat) :
+    List Nat × List Nat :=
+  match ys with
+  | [] => acc
+  | (y, by') :: ys => mulAccumRow x bx i ys (j + 1) (addAt (i + j) (x * y) (bx + by') acc.1 acc.2)
+
+def mulAccumRows (xs : List (Nat × Nat)) (ys : List (Nat × Nat)) (i : Nat)
+    (acc : List Nat × List Nat) : List Nat × List Nat :=
+  match xs with
+  | [] => acc
+  | (x, bx) :: xs => mulAccumRows xs ys (i + 1) (mulAccumRow x bx i ys 0 acc)
+
+/-- Limbs and bounds of the product before normalisation, by the fold. -/
+def mulAccum (x y : BVar) : List Nat × List Nat :=
+  let n := x.limbs.length + y.limbs.length - 1
+  mulAccumRows (x.limbs.zip x.sb) (y.limbs.zip y.sb) 0 (List.replicate n 0, List.replicate n 0)
+
+/-- Limbs and tracked bounds of the product before normalisation: the accumulation fold
+`mulAccum` (the object of `mul_accum_within_bounds`). `mulLimbs` / `mulBoundsLoop` are the same
+computation written as the schoolbook recursion / the imperative loop; the driver stops with a
+panic if they ever differ from the fold (so every `mul` of the correspondence re-checks it). -/
+def mulRaw (x y : BVar) : BVar :=
+  let r := mulAccum x y
+  ⟨r.1, r.2⟩
+
+/-- Agreement of the three formulations of the product accumulation on one operand pair. -/
+def mulFormsAgree (x y : BVar) : Bool :=
+  let r := mulAccum x y
+  r.1 == mulLimbs x.limbs y.limbs && r.2 == mulBoundsLoop x.sb y.sb
 
 /-- `mul`. -/
-def mul (lb numBits : Nat) (x y : BVar) : Except BStop (BVar × Bool) := do
+def mul (lb numBits : Nat) (x y : BVar) : BM (BVar × Bool) := do
   let (x, ok1) ← normalize lb numBits x
   let (y, ok2) ← normalize lb numBits y
-  if x.limbs.isEmpty ∨ y.limbs.isEmpty then throw .panic
-  let (z, ok3) ← normalize lb numBits (mulRaw x y)
-  pure (z, ok1 && ok2 && ok3)
+  if x.limbs.isEmpty ∨ y.limbs.isEmpty ∨ !(mulFormsAgree x y) then stopB .panic
+  else
+    let (z, ok3) ← normalize lb numBits (mulRaw x y)
+    pure (z, ok1 && ok2 && ok3)
 
 /-- Limb-wise equality after resizing (`assert_equal` / `is_equal`); `none` = the Rust
 `assert!(is_normalized())` fails. -/
@@ -172,7 +251,7 @@ def geqFold : List Nat → List Nat → Bool → Bool
   | x :: xs, y :: ys, acc => geqFold xs ys (decide (x > y) || (decide (x = y) && acc))
   | _, _, acc => acc
 
-def geq (lb : Nat) (x y : BVar) : Option Bool :=
+def geqV (lb : Nat) (x y : BVar) : Option Bool :=
   if !(isNormalized lb x.sb) ∨ !(isNormalized lb y.sb) then none
   else
     let n := max x.limbs.length y.limbs.length
@@ -180,18 +259,28 @@ def geq (lb : Nat) (x y : BVar) : Option Bool :=
     | some x, some y => some (geqFold x.limbs y.limbs true)
     | _, _ => none
 
+/-- `geq`: per limb pair one `greater_than` of the native gadget on operands declared
+`< 2^LOG2_BASE` (`to_assigned_bounded_unsafe`), i.e. one `assert_less_than_pow2(z, LOG2_BASE)` on
+the native-computed difference cell (event `C`). -/
+def geq (lb : Nat) (x y : BVar) : BM Bool :=
+  match geqV lb x y with
+  | none => stopB .panic
+  | some g => do
+    emitB (List.replicate (max x.limbs.length y.limbs.length) (BEv.c lb))
+    pure g
+
 /-- `sub`: `res = x - y` (0 when `x < y`), `res + y` asserted equal to `x`. -/
-def sub (lb numBits : Nat) (x y : BVar) : Except BStop (BVar × Bool) := do
+def sub (lb numBits : Nat) (x y : BVar) : BM (BVar × Bool) := do
   let xv := bigValue lb x.limbs
   let yv := bigValue lb y.limbs
   let (res, ok1) ← assignBounded lb (if xv ≥ yv then xv - yv else 0) (nbBits lb x.sb)
   let (z, ok2) ← add lb numBits res y
   match limbsEqual lb x z with
-  | none => throw .panic
+  | none => stopB .panic
   | some e => pure (res, ok1 && ok2 && e)
 
 /-- `div_rem`. -/
-def divRem (lb numBits : Nat) (x y : BVar) : Except BStop (BVar × BVar × Bool) := do
+def divRem (lb numBits : Nat) (x y : BVar) : BM (BVar × BVar × Bool) := do
   let xv := bigValue lb x.limbs
   let yv := bigValue lb y.limbs
   let (q, ok1) ← assignBounded lb (if yv = 0 then 0 else xv / yv) (nbBits lb x.sb)
@@ -199,25 +288,23 @@ def divRem (lb numBits : Nat) (x y : BVar) : Except BStop (BVar × BVar × Bool)
   let (qy, ok3) ← mul lb numBits q y
   let (qyr, ok4) ← add lb numBits qy r
   let e ← match limbsEqual lb x qyr with
-    | none => throw .panic
+    | none => stopB .panic
     | some e => pure e
-  let lt ← match geq lb r y with
-    | none => throw .panic
-    | some g => pure (!g)
-  pure (q, r, ok1 && ok2 && ok3 && ok4 && e && lt)
+  let g ← geq lb r y
+  pure (q, r, ok1 && ok2 && ok3 && ok4 && e && !g)
 
 /-- `mod_mul`. -/
-def modMul (lb numBits : Nat) (x y m : BVar) : Except BStop (BVar × Bool) := do
+def modMul (lb numBits : Nat) (x y m : BVar) : BM (BVar × Bool) := do
   let (p, ok1) ← mul lb numBits x y
   let (_, r, ok2) ← divRem lb numBits p m
   pure (r, ok1 && ok2)
 
 /-- The square-and-multiply loop of `mod_exp` (fuel = number of bits of the exponent). -/
 def modExpLoop (lb numBits : Nat) (m : BVar) :
-    Nat → Nat → BVar → Option BVar → Bool → Except BStop (Option BVar × Bool)
-  | 0, _, _, res, ok => .ok (res, ok)
+    Nat → Nat → BVar → Option BVar → Bool → BM (Option BVar × Bool)
+  | 0, _, _, res, ok => pure (res, ok)
   | fuel + 1, n, tmp, res, ok =>
-    if n = 0 then .ok (res, ok)
+    if n = 0 then pure (res, ok)
     else do
       let (res, ok) ← if n % 2 = 1 then
           match res with
@@ -230,10 +317,27 @@ def modExpLoop (lb numBits : Nat) (m : BVar) :
       if n > 0 then do
         let (t, o) ← modMul lb numBits tmp tmp m
         modExpLoop lb numBits m fuel n t res (ok && o)
-      else .ok (res, ok)
+      else pure (res, ok)
+
+/-- The conditional multiplication of one loop iteration on honest values. -/
+def accStep (m n tmp : Nat) (res : Option Nat) : Option Nat :=
+  if n % 2 = 1 then
+    (match res with
+      | none => some tmp
+      | some acc => some (acc * tmp % m))
+  else res
+
+/-- The honest run of the loop (values), mirroring `modExpLoop` on the represented integers (`mod_mul` = `a·b mod m`); the
+driver compares it with the result of `modExpLoop` on every `modexp` of the correspondence. -/
+def modExpLoopVal (m : Nat) : Nat → Nat → Nat → Option Nat → Option Nat
+  | 0, _, _, res => res
+  | fuel + 1, n, tmp, res =>
+    if n = 0 then res
+    else if n / 2 > 0 then modExpLoopVal m fuel (n / 2) (tmp * tmp % m) (accStep m n tmp res)
+    else accStep m n tmp res
 
 /-- `mod_exp` (after the repair of exponents 0 and 1). -/
-def modExp (lb numBits : Nat) (x : BVar) (n : Nat) (m : BVar) : Except BStop (BVar × Bool) := do
+def modExp (lb numBits : Nat) (x : BVar) (n : Nat) (m : BVar) : BM (BVar × Bool) := do
   if n = 0 then
     let (_, r, ok) ← divRem lb numBits (assignFixed lb 1) m
     pure (r, ok)
@@ -243,8 +347,12 @@ def modExp (lb numBits : Nat) (x : BVar) (n : Nat) (m : BVar) : Except BStop (BV
   else
     let (res, ok) ← modExpLoop lb numBits m (natBits n + 1) n x none true
     match res with
-    | some r => pure (r, ok)
-    | none => throw .panic
+    | some r =>
+      -- the value-level mirror of the loop (object of `mod_exp_complete`) must agree
+      if ok && modExpLoopVal (bigValue lb m.limbs) (natBits n + 1) n (bigValue lb x.limbs) none
+          != some (bigValue lb r.limbs) then stopB .panic
+      else pure (r, ok)
+    | none => stopB .panic
 
 /-- `select`. -/
 def select (b : Bool) (x y : BVar) : Option BVar :=
